@@ -258,11 +258,76 @@ def check_convention(ctx: Check, tree: Tree) -> None:
                 "_generate_kinematic_variables: (phi, theta) are the angle symbols of decay.children[0] (the helicity state)", None if ok else rtxt[:200])
 
 
+def check_topology_helpers(ctx: Check, tree: Tree) -> None:
+    """R-HELPERS: the topology helpers on which the other rules rely (they are treated as the
+    definition of "helicity state", "sibling", "parent" and "attached final states"):
+      is_opposite_helicity_state(t, s)  =  tuple(attached(t, s)) > tuple(attached(t, sibling(t, s)))
+                                           (a strict order: exactly one of two siblings is opposite, state 0 never)
+      determine_attached_final_state    =  [s] iff the edge ends nowhere, else the sorted final states below it
+      get_sibling_state_id              =  the one other edge leaving the originating node
+      get_parent_id                     =  None iff the edge originates nowhere, else the one edge entering its originating node"""
+    mod = "ampform.helicity.decay"
+    # 1
+    fn = tree.func(f"{mod}::is_opposite_helicity_state")
+    rd = RD(fn.node)
+    rets = [r for r in walk_function(fn.node) if isinstance(r, ast.Return) and r.value is not None]
+    ok = False
+    detail = None
+    if len(rets) == 1 and isinstance(rets[0].value, ast.Compare) and len(rets[0].value.ops) == 1 and isinstance(rets[0].value.ops[0], ast.Gt):
+        def side(n):
+            inner = n.args[0] if isinstance(n, ast.Call) and unparse(n.func) in {"tuple", "list"} and n.args else n
+            txt = " ".join([unparse(inner)] + [unparse(d.value) for d in rd.closure(rd.uses(inner)) if isinstance(d.value, ast.AST)])
+            if "determine_attached_final_state(" not in txt:
+                return None
+            return "sibling" if "get_sibling_state_id(" in txt else "state"
+        l_, r_ = side(rets[0].value.left), side(rets[0].value.comparators[0])
+        ok = (l_, r_) == ("state", "sibling")
+        detail = (l_, r_)
+    ctx.verdict(ok, "R-HELPERS", f"{fn.qual}::strict-order", tree.loc(fn.node),
+                "is_opposite_helicity_state == attached final states of the state > those of its sibling (strict tuple order)", None if ok else detail)
+    # 2
+    fn = tree.func(f"{mod}::determine_attached_final_state")
+    rets = [r for r in walk_function(fn.node) if isinstance(r, ast.Return) and r.value is not None]
+    ok = False
+    if len(rets) == 2:
+        leaf = [r for r in rets if unparse(r.value).replace(" ", "") == f"[{fn.params[1]}]"]
+        if len(leaf) == 1:
+            g = [a for a in ancestors(leaf[0]) if isinstance(a, ast.If)]
+            ok = len(g) == 1 and unparse(g[0].test).replace(" ", "").endswith(".ending_node_idisNone") and any(leaf[0] is n for b in g[0].body for n in ast.walk(b))
+            other = [r for r in rets if r is not leaf[0]][0]
+            ok = ok and unparse(other.value).replace(" ", "").startswith("sorted(topology.get_originating_final_state_edge_ids(") and not [a for a in ancestors(other) if isinstance(a, ast.If)]
+    ctx.verdict(ok, "R-HELPERS", f"{fn.qual}::definition", tree.loc(fn.node), "determine_attached_final_state: [state] iff the edge has no ending node, else the sorted final-state ids below its ending node")
+    # 3
+    fn = tree.func(f"{mod}::get_sibling_state_id")
+    rd = RD(fn.node)
+    txt = unparse(fn.node).replace(" ", "")
+    rets = [r for r in walk_function(fn.node) if isinstance(r, ast.Return) and r.value is not None]
+    ok = (len(rets) == 1 and "get_edge_ids_outgoing_from_node(" in " ".join(unparse(d.value) for d in rd.closure(rd.uses(rets[0].value)) if isinstance(d.value, ast.AST))
+          and ".originating_node_id" in txt and any(isinstance(n, ast.Call) and isinstance(n.func, ast.Attribute) and n.func.attr in {"remove", "discard"} and [unparse(a) for a in n.args] == [fn.params[1]] for n in walk_function(fn.node)))
+    ctx.verdict(ok, "R-HELPERS", f"{fn.qual}::definition", tree.loc(fn.node), "get_sibling_state_id: the outgoing edges of the originating node minus the state itself")
+    # 4
+    fn = tree.func(f"{mod}::get_parent_id")
+    rets = [r for r in walk_function(fn.node) if isinstance(r, ast.Return)]
+    none_r = [r for r in rets if r.value is None or (isinstance(r.value, ast.Constant) and r.value.value is None)]
+    ok = False
+    if len(none_r) == 1:
+        g = [a for a in ancestors(none_r[0]) if isinstance(a, ast.If)]
+        ok = len(g) == 1 and unparse(g[0].test).replace(" ", "").endswith(".originating_node_idisNone")
+        val = [r for r in rets if r not in none_r]
+        rd = RD(fn.node)
+        ok = ok and len(val) == 1 and "get_edge_ids_ingoing_to_node(" in " ".join(unparse(d.value) for d in rd.closure(rd.uses(val[0].value)) if isinstance(d.value, ast.AST))
+        ok = ok and isinstance(val[0].value, ast.Subscript) and unparse(val[0].value.slice) == "0"
+        cnt = [n for n in walk_function(fn.node) if isinstance(n, ast.If) and any(isinstance(b, ast.Raise) for b in n.body)]
+        ok = ok and len(cnt) == 1 and unparse(cnt[0].test).replace(" ", "").startswith("len(") and unparse(cnt[0].test).replace(" ", "").endswith("!=1")
+    ctx.verdict(ok, "R-HELPERS", f"{fn.qual}::definition", tree.loc(fn.node), "get_parent_id: None iff the edge originates nowhere, else the single edge entering its originating node")
+
+
 def run(ctx: Check, tree: Tree) -> None:
     ctx.decided += [
         "R-PROV: in compute_helicity_angles the state id that names an angle pair reaches the momentum that fills it (all reaching definitions)",
         "R-FRAME: helicity frames are BoostZ(|P|/E)·RotationY(-Theta(P))·RotationZ(-Phi(P)) of the child's summed momentum; recursion uses the boosted pool",
         "R-POOL: the momenta of each node are read in that node's own frame (the handed-in pool is never rebound or written): inner angles depend only on the chain of parent frames, which is what makes them rotation invariant",
+        "R-HELPERS: is_opposite_helicity_state is the strict order on attached final states between a state and its sibling; determine_attached_final_state / get_sibling_state_id / get_parent_id have their documented definitions",
         "R-NORMALISED: every request for angle symbols is for the helicity state (children[0] or an id normalised with is_opposite_helicity_state); from_transition swap; alignment sign",
         "R-CONVENTION: Wigner-D takes (-phi, theta, 0) of the symbols of children[0]",
         "R-GROUPKEY: the incoherent sum over outer spin projections is complete: the grouping key separates every (particle, projection) of the outer states",
@@ -277,6 +342,7 @@ def run(ctx: Check, tree: Tree) -> None:
     ctx.section(check_recursion_shape, ctx, tree)
     ctx.section(check_normalised, ctx, tree)
     ctx.section(check_convention, ctx, tree)
+    ctx.section(check_topology_helpers, ctx, tree)
     from .c05 import check_rotation_chain_order, check_wigner_angle_table
 
     ctx.section(check_wigner_angle_table, ctx, tree)
